@@ -1926,7 +1926,11 @@ static void wlReaders(Ctx& c, int nexec, int len)
          std::string fn = g_tmpdir + "/in" + std::to_string(e) + "_" + std::to_string(step) + sf.ext; writeText(fn, text);
          if(c.rng.coin(1, 8)) { std::string cmd = "gzip -f '" + fn + "' 2>/dev/null"; if(system(cmd.c_str()) == 0) { fn += ".gz"; gz = true; } }
          // ---- read
-         NameSet rn, cn; pending() = "readFile " + what + " " + sf.ext + (gz ? ".gz" : "") + (rational ? " rational" : " real");
+         // the largest decimal exponent a reader can see in this text (the LP reader strips blanks before it tokenizes): exact
+         // arithmetic makes the rational readers pay for it (KF-36)
+         long maxexp = 0; { std::string z; for(char ch : text) if(ch != ' ' && ch != '\t') z += ch;
+            for(size_t i = 1; i + 1 < z.size(); i++) if((z[i] == 'e' || z[i] == 'E') && isdigit((unsigned char)z[i - 1])) { size_t k = i + 1; if(k < z.size() && (z[k] == '+' || z[k] == '-')) k++; long v = 0; int nd = 0; while(k < z.size() && isdigit((unsigned char)z[k]) && nd < 12) { v = v * 10 + (z[k] - '0'); k++; nd++; } if(v > maxexp) maxexp = v; } }
+         NameSet rn, cn; pending() = "readFile " + what + " " + sf.ext + (gz ? ".gz" : "") + (rational ? " rational" : " real") + " maxexp=" + std::to_string(maxexp);
          vAlarm(10); bool ret = s.readFile(fn.c_str(), &rn, &cn); vAlarm(0);
          c.modsSinceBasis[o] = 1; c.noInternal[o] = false;
          {
